@@ -305,3 +305,15 @@ Example traversed_twice_example :
   | _ => False
   end.
 Proof. vm_compute. reflexivity. Qed.
+
+(* every constructor over raw octets hands out a view exactly for octet strings
+   that hold the 12 octet header section; on those, everything above is total *)
+Theorem constructors_agree m :
+  Forall (fun b => b = (12 <=? mlen m)) (c01_ctor m) /\ length (c01_ctor m) = 7%nat.
+Proof.
+  unfold c01_ctor, checking_constructors. split; [|apply repeat_length].
+  apply Forall_forall. intros b Hb. apply repeat_spec in Hb. subst b. reflexivity.
+Qed.
+
+Example constructors_short : c01_ctor [0;0;0;0;0] = [false;false;false;false;false;false;false].
+Proof. reflexivity. Qed.
